@@ -203,10 +203,15 @@ Definition exec_lmove (d : db) (args : list bytes) : reply * db :=
         match popped with
         | None => (RNil, d)
         | Some (x, l') =>
-          let d1 := put_list d src l' in
-          let dl := match get_list d1 dst with LFound y => y | _ => [] end in
-          let dl' := if is dd (B "left") then x :: dl else dl ++ [x] in
-          (RBulk x, db_set d1 dst (VList dl'))
+          if bytes_eqb src dst then
+            (* same *List object: popped and pushed back, it never becomes empty, so the key
+               (and its deadline) stay *)
+            (RBulk x, db_set d src (VList (if is dd (B "left") then x :: l' else l' ++ [x])))
+          else
+            let d1 := put_list d src l' in
+            let dl := match get_list d dst with LFound y => y | _ => [] end in
+            let dl' := if is dd (B "left") then x :: dl else dl ++ [x] in
+            (RBulk x, db_set d1 dst (VList dl'))
         end
       end
     end
@@ -276,37 +281,131 @@ Definition exec_lpos (d : db) (args : list bytes) : reply * db :=
   | _ => (err_other, d)
   end.
 
-(* ---------- BLPOP / BRPOP, sequential view: the first poll happens 100 ms after the call ----------
-   keys are examined in argument order; the first non-empty list is popped; a key of another
-   type met before that is a WRONGTYPE error; otherwise nil at the timeout. *)
-Fixpoint bpop_scan (left : bool) (d : db) (keys : list bytes) : reply * db :=
+(* ---------- BLPOP / BRPOP (bXPopList) ----------
+   The executor arms a timer for the timeout and a 100 ms ticker, then loops: at every tick it
+   walks the listed keys in argument order (CheckTTL, lock, look up): a key of another type is a
+   WRONGTYPE error, the first non-empty list is popped (and deleted when emptied) and
+   [key, element] returned; when the timer fires the reply is nil.  Time is virtual (ms). *)
+
+(* one polling round over the listed keys; None = nothing to pop *)
+Fixpoint bpop_try (left : bool) (d : db) (keys : list bytes) : option (reply * db) :=
   match keys with
-  | [] => (RNil, d)
+  | [] => None
   | k :: r =>
     match get_list d k with
-    | LMissing => bpop_scan left d r
-    | LWrong => (err_wrongtype, d)
+    | LMissing => bpop_try left d r
+    | LWrong => Some (err_wrongtype, d)
     | LFound l =>
       if left then
         match l with
-        | [] => bpop_scan left d r
-        | x :: l' => (RArr [RBulk k; RBulk x], put_list d k l') end
+        | [] => bpop_try left d r
+        | x :: l' => Some (RArr [RBulk k; RBulk x], put_list d k l') end
       else
         match rev l with
-        | [] => bpop_scan left d r
-        | x :: l' => (RArr [RBulk k; RBulk x], put_list d k (rev l')) end
+        | [] => bpop_try left d r
+        | x :: l' => Some (RArr [RBulk k; RBulk x], put_list d k (rev l')) end
+    end
+  end.
+
+(* the polling round at virtual instant [tms]: keys whose deadline has passed are gone *)
+Definition bpop_poll (left : bool) (keys : list bytes) (d : db) (tms : Z) : option (reply * db) :=
+  bpop_try left (purge d (tms / 1000)) keys.
+
+(* iterate [f] at most [p] times, stopping at the first [inl] (binary recursion, so that a huge
+   bound -- timeout 0 blocks "forever" -- costs nothing when the loop ends early) *)
+Fixpoint iter_until {X Y : Type} (p : positive) (f : X -> Y + X) (x : X) : Y + X :=
+  match p with
+  | xH => f x
+  | xO q => match iter_until q f x with
+            | inl y => inl y
+            | inr x1 => iter_until q f x1 end
+  | xI q => match f x with
+            | inl y => inl y
+            | inr x0 => match iter_until q f x0 with
+                        | inl y => inl y
+                        | inr x1 => iter_until q f x1 end
+            end
+  end.
+
+(* A blocked command as a process over virtual time, generic in the state [S] it polls
+   ([db] for the executor, the whole server for the trace replayer), the result [R] of a
+   successful poll, and the actions of *other* connections that happen while it is blocked:
+   [evs] = (instant in ms, action) in chronological order, each producing an output [O]. *)
+Section Block.
+  Context {S O R : Type}.
+  Variable poll : S -> Z -> option (R * S).
+  Definition bev := (Z * (S -> O * S))%type.
+
+  (* run the actions due strictly before instant t *)
+  Fixpoint run_due (t : Z) (evs : list bev) (s : S) : list bev * S * list O :=
+    match evs with
+    | [] => ([], s, [])
+    | (te, f) :: r =>
+      if te <? t then
+        let '(o, s1) := f s in
+        let '(evs', s2, os) := run_due t r s1 in (evs', s2, o :: os)
+      else (evs, s, [])
+    end.
+
+  Record bst := mkBst { b_tick : Z; b_evs : list bev; b_s : S; b_out : list O }.
+
+  (* tick number b_tick+1 at instant t0 + 100*(b_tick+1) *)
+  Definition btick (t0 : Z) (st : bst) : (R * bst) + bst :=
+    let i := b_tick st + 1 in
+    let t := t0 + 100 * i in
+    let '(evs, s, os) := run_due t (b_evs st) (b_s st) in
+    match poll s t with
+    | Some (r, s') => inl (r, mkBst i evs s' (b_out st ++ os))
+    | None => inr (mkBst i evs s (b_out st ++ os))
+    end.
+
+  (* number of ticks strictly before the timer, and the timer instant relative to t0 (ms).
+     timeout 0: the timer is math.MaxInt ns. *)
+  Definition block_ticks (timeout_s : Z) : positive :=
+    if timeout_s =? 0 then 92233720368%positive else Z.to_pos (10 * timeout_s - 1).
+  Definition block_timer_ms (timeout_s : Z) : Z :=
+    if timeout_s =? 0 then 9223372036854 else 1000 * timeout_s.
+
+  (* [nticks] ticks strictly before the timer, which fires [timer_ms] after t0.
+     result (None = the timer fired), end instant, remaining actions, state, outputs so far.
+     At an instant where a tick and the timer coincide Go's select may take either branch; here
+     the timer wins (they differ only for an element that arrives during the last 100 ms). *)
+  Definition block_n (t0 : Z) (nticks : positive) (timer_ms : Z) (evs : list bev) (s : S)
+    : option R * Z * list bev * S * list O :=
+    match iter_until nticks (btick t0) (mkBst 0 evs s []) with
+    | inl (r, st) => (Some r, t0 + 100 * b_tick st, b_evs st, b_s st, b_out st)
+    | inr st =>
+      let tend := t0 + timer_ms in
+      let '(evs', s', os) := run_due tend (b_evs st) (b_s st) in
+      (None, tend, evs', s', b_out st ++ os)
+    end.
+
+  Definition block (t0 timeout_s : Z) (evs : list bev) (s : S)
+    : option R * Z * list bev * S * list O :=
+    block_n t0 (block_ticks timeout_s) (block_timer_ms timeout_s) evs s.
+End Block.
+
+(* argument vector of BLPOP/BRPOP: keys and timeout in whole seconds *)
+Definition bpop_parse (args : list bytes) : option (list bytes * Z) :=
+  match args with
+  | _ :: (_ :: _ :: _) as rest =>
+    match atoi64 (last rest []) with
+    | None => None
+    | Some t => if (t <? 0) || (t >? 9223372036) then None else Some (removelast rest, t)
+    end
+  | _ => None
+  end.
+
+(* reply, database, instant (ms) at which the command returns *)
+Definition bpop_run (left : bool) (d : db) (nowms : Z) (args : list bytes) : reply * db * Z :=
+  match bpop_parse args with
+  | None => (err_other, d, nowms)
+  | Some (keys, t) =>
+    match block (O := unit) (bpop_poll left keys) nowms t [] d with
+    | (Some r, tend, _, d', _) => (r, d', tend)
+    | (None, tend, _, d', _) => (RNil, d', tend)
     end
   end.
 
 Definition exec_bpop (left : bool) (d : db) (nowms : Z) (args : list bytes) : reply * db :=
-  match args with
-  | _ :: (_ :: _ :: _) as rest =>
-    let keys := removelast rest in
-    match atoi64 (last rest []) with
-    | None => (err_other, d)
-    | Some t =>
-      if t <? 0 then (err_other, d)
-      else bpop_scan left (purge d ((nowms + 100) / 1000)) keys
-    end
-  | _ => (err_other, d)
-  end.
+  fst (bpop_run left d nowms args).
